@@ -786,3 +786,170 @@ Print Assumptions C18_roundtrip_same_enumeration.
 Print Assumptions C18_same_structure_same_enumeration.
 Print Assumptions C18_roundtrip_same_rule_observables.
 Print Assumptions C18_decimal_keys.
+
+(* ================================================================ DECIDED HYPOTHESES (gap G.1 #2)
+   A theorem about run_c18 covers a generated case only if its hypotheses hold on THAT case.
+   Json/Deciders.v decides them: `strat_okb` RUNS the class's from_dict (`user_from_dict`) on what
+   to_jsonable writes and compares the answer with the instance (json_eqb decides Leibniz equality of
+   documents: Deciders.json_eqb_spec), `rule_strats_okb` does so for every strategy inside a rule,
+   `spec_wfb` = distinct keys && spec_closed && every rule_ok && every rule's strategies ok,
+   `bij_wfb` = spec_wfb of both specifications && distinct keys of the order map && distinct keys of
+   the index data && every key of the index data is a key of the order map.  run_c18 appends the 11
+   bits `bij_wf_bits` to its output on every kind-4 input (Json/Run.v, bij_wf_verdict); the harness
+   computes the same bits in Python, the two are diffed on every case, and extra_checks counts on how
+   many compared bijections all 11 are 1 ("covered_by_theorem C18_bijection_roundtrip: k of n").
+   SOUNDNESS only (decider = true -> hypothesis); completeness is not needed for the counting. *)
+From CSS Require Import Json.Deciders.
+
+Section C18_decided.
+Variable cls : Type.
+Variable cls_eqb : cls -> cls -> bool.
+Hypothesis cls_eqb_spec : forall a b, cls_eqb a b = true <-> a = b.
+Variable cls_to_json : cls -> json.
+Variable cls_of_json : json -> res cls.
+Hypothesis cls_roundtrip : forall c, cls_of_json (cls_to_json c) = Ok c.
+Variable is_empty : cls -> bool.
+Variable cat_of : str -> str -> option scat.
+Variable user_from_dict : str -> str -> list (str * json) -> res (option flags * list (str * json)).
+Variable decomp : strat -> cls -> option (list cls).
+Variable reversible : strat -> cls -> bool.
+Variable eqv_cap : strat -> cls -> option Z -> bool.
+
+Notation spec_wf := (spec_wf cls cls_eqb is_empty cat_of user_from_dict decomp reversible eqv_cap).
+Notation spec_wfb := (spec_wfb cls cls_eqb is_empty cat_of user_from_dict decomp reversible eqv_cap).
+Notation bij_wf := (bij_wf cls cls_eqb is_empty cat_of user_from_dict decomp reversible eqv_cap).
+Notation bij_wfb := (bij_wfb cls cls_eqb is_empty cat_of user_from_dict decomp reversible eqv_cap).
+
+Theorem C18_strat_ok_decided : forall s,
+  strat_okb cat_of user_from_dict s = true -> strat_ok cat_of user_from_dict s.
+Proof. exact (strat_okb_sound cat_of user_from_dict). Qed.
+
+Theorem C18_rule_strats_ok_decided : forall r,
+  rule_strats_okb cls cat_of user_from_dict r = true ->
+  rule_strats_all cls (strat_ok cat_of user_from_dict) r.
+Proof. exact (rule_strats_okb_sound cls cat_of user_from_dict). Qed.
+
+Theorem C18_pack_ok_decided : forall p,
+  pack_okb cat_of user_from_dict p = true -> pack_ok cat_of user_from_dict p.
+Proof. exact (pack_okb_sound cat_of user_from_dict). Qed.
+
+Theorem C18_spec_wf_decided : forall s, spec_wfb s = true -> spec_wf s.
+Proof. apply spec_wfb_sound. Qed.
+
+Theorem C18_bij_wf_decided : forall b, bij_wfb b = true -> bij_wf b.
+Proof. apply bij_wfb_sound. intros a b H. apply cls_eqb_spec. exact H. Qed.
+
+(* C18_spec_roundtrip (first conjunct) and C18_bijection_roundtrip with the hypothesis replaced by
+   its decider *)
+Theorem C18_spec_roundtrip_decided : forall s,
+  spec_wfb s = true ->
+  spec_of_json cls cls_eqb cls_of_json is_empty cat_of user_from_dict decomp reversible eqv_cap
+               (json_of_spec cls cls_to_json cat_of s) = Ok (strip_spec cls s).
+Proof.
+  intros s H. apply (spec_roundtrip cls cls_eqb cls_eqb_spec cls_to_json cls_of_json cls_roundtrip).
+  apply C18_spec_wf_decided. exact H.
+Qed.
+
+Theorem C18_bijection_roundtrip_decided : forall b,
+  bij_wfb b = true ->
+  exists b', bij_of_json cls cls_eqb cls_of_json is_empty cat_of user_from_dict decomp reversible eqv_cap
+                         (json_of_bij cls cls_eqb cls_to_json cat_of b) = Ok b' /\
+    b_spec cls b' = strip_spec cls (b_spec cls b) /\
+    b_other cls b' = strip_spec cls (b_other cls b) /\
+    (forall k, dget (pair_eqb cls cls_eqb) k (b_order cls b') = dget (pair_eqb cls cls_eqb) k (b_order cls b)) /\
+    (forall k, dget (pair_eqb cls cls_eqb) k (b_data cls b') = dget (pair_eqb cls cls_eqb) k (b_data cls b)).
+Proof.
+  intros b H.
+  apply (C18_bijection_roundtrip cls cls_eqb cls_eqb_spec cls_to_json cls_of_json cls_roundtrip).
+  apply C18_bij_wf_decided. exact H.
+Qed.
+End C18_decided.
+
+(* The verdict run_c18 PRINTS for a kind-4 input is sound for `bij_wf` at exactly the instantiation
+   of the user-code variables that run_c18 uses (classes = their JSON compared by json_eqb, the
+   per-case tables T): if all printed bits are non-zero, `bij_wf` holds of the decoded descriptor.
+   (The two codec hypotheses cls_eqb_spec / cls_roundtrip of Section C18 are not part of bij_wf:
+   the first is Deciders.json_eqb_spec at this instance, the second stays the class-codec contract.) *)
+From CSS Require Base.Sx Json.Run.
+Theorem C18_run_bij_verdict_sound : forall (T : Json.Run.tables) (d : Base.Sx.sx),
+  forallb Base.Sx.sx_bool (Base.Sx.sx_list (Json.Run.bij_wf_verdict T d)) = true ->
+  bij_wf json json_eqb (Json.Run.i_is_empty T) (Json.Run.i_cat_of T) (Json.Run.i_user_from_dict T)
+         (Json.Run.i_decomp T) (Json.Run.i_reversible T) (Json.Run.i_eqv_cap T) (Json.Run.dec_bij d).
+Proof.
+  intros T d H. apply (bij_wfb_sound json json_eqb json_eqb_eq).
+  unfold Deciders.bij_wfb. unfold Json.Run.bij_wf_verdict in H. cbn [Base.Sx.sx_list] in H.
+  apply (forallb_map_bits Base.Sx.sx_bool Base.Sx.of_bool); [intros [|]; reflexivity|exact H].
+Qed.
+
+(* the same for the 4 bits printed for a kind-3 (specification) input and `spec_wf` *)
+Theorem C18_run_spec_verdict_sound : forall (T : Json.Run.tables) (d : Base.Sx.sx),
+  forallb Base.Sx.sx_bool (Base.Sx.sx_list (Json.Run.spec_wf_verdict T d)) = true ->
+  spec_wf json json_eqb (Json.Run.i_is_empty T) (Json.Run.i_cat_of T) (Json.Run.i_user_from_dict T)
+          (Json.Run.i_decomp T) (Json.Run.i_reversible T) (Json.Run.i_eqv_cap T) (Json.Run.dec_spec d).
+Proof.
+  intros T d H. apply spec_wfb_sound.
+  apply (forallb_map_bits Base.Sx.sx_bool Base.Sx.of_bool); [intros [|]; reflexivity|exact H].
+Qed.
+
+(* ... and for the bits printed for kinds 0, 1, 2: strat_ok, rule_ok + rule_strats_ok, pack_ok *)
+Theorem C18_run_small_verdicts_sound : forall (T : Json.Run.tables) (d : Base.Sx.sx),
+  (forallb Base.Sx.sx_bool (Base.Sx.sx_list (Json.Run.strat_verdict T d)) = true ->
+   strat_ok (Json.Run.i_cat_of T) (Json.Run.i_user_from_dict T) (Json.Run.dec_strat d)) /\
+  (forallb Base.Sx.sx_bool (Base.Sx.sx_list (Json.Run.rule_verdict T d)) = true ->
+   rule_ok json json_eqb (Json.Run.i_is_empty T) (Json.Run.i_cat_of T) (Json.Run.i_decomp T)
+           (Json.Run.i_reversible T) (Json.Run.i_eqv_cap T) (Json.Run.dec_rule d) = true /\
+   rule_strats_all json (strat_ok (Json.Run.i_cat_of T) (Json.Run.i_user_from_dict T)) (Json.Run.dec_rule d)) /\
+  (forallb Base.Sx.sx_bool (Base.Sx.sx_list (Json.Run.pack_verdict T d)) = true ->
+   pack_ok (Json.Run.i_cat_of T) (Json.Run.i_user_from_dict T) (Json.Run.dec_pack d)).
+Proof.
+  intros T d.
+  assert (forall b, Base.Sx.sx_bool (Base.Sx.of_bool b) = b) as Hb by (intros [|]; reflexivity).
+  split; [|split]; intros H.
+  - apply strat_okb_sound. exact (bits1 _ _ Hb _ H).
+  - destruct (bits2 _ _ Hb _ _ H) as [H1 H2]. split; [exact H1|]. apply rule_strats_okb_sound. exact H2.
+  - apply pack_okb_sound. exact (bits1 _ _ Hb _ H).
+Qed.
+
+(* non-vacuity: the deciders answer true on the bijection of Module Audit (its specifications contain an
+   aliased instance, a nested path of equivalence / reverse rules, a lazily added empty rule), so
+   C18_bijection_roundtrip_decided applies to it by COMPUTATION of the hypothesis ... *)
+Example C18_bij_wfb_nonvacuous :
+  bij_wf_bits Z Z.eqb Example.is_empty Example.cat_of Example.user_from_dict Example.decomp Audit.rev Audit.cap Audit.bj
+  = [true; true; true; true; true; true; true; true; true; true; true].
+Proof. vm_compute. reflexivity. Qed.
+Example C18_bijection_roundtrip_decided_nonvacuous :
+  exists b',
+    bij_of_json Z Z.eqb Example.of_json Example.is_empty Example.cat_of Example.user_from_dict
+                Example.decomp Audit.rev Audit.cap
+                (json_of_bij Z Z.eqb Example.to_json Example.cat_of Audit.bj) = Ok b' /\
+    b_spec Z b' = strip_spec Z Audit.s_a /\ b_other Z b' = strip_spec Z Audit.s_b.
+Proof.
+  destruct (C18_bijection_roundtrip_decided Z Z.eqb Audit.eqb_spec Example.to_json Example.of_json Audit.codec
+              Example.is_empty Example.cat_of Example.user_from_dict Example.decomp Audit.rev Audit.cap
+              Audit.bj ltac:(vm_compute; reflexivity)) as (b' & A & B & C & _).
+  exists b'. split; [exact A|]. split; [exact B|exact C].
+Qed.
+(* ... and they DISCRIMINATE, conjunct by conjunct: an index-data key that is no key of the order map
+   (bit 11), a repeated order key (bit 9), a strategy whose from_dict does not restore its settings
+   (wrong number of flag entries for the example class U: bit 4 of the domain specification), a
+   specification with a child without rule (bit 2) *)
+Example C18_bij_wfb_near_misses :
+  let bits := bij_wf_bits Z Z.eqb Example.is_empty Example.cat_of Example.user_from_dict Example.decomp Audit.rev Audit.cap in
+  bits (mkBij Z Audit.s_a Audit.s_b (b_order Z Audit.bj) [((2, 2), JNum 7)])
+  = [true; true; true; true; true; true; true; true; true; true; false] /\
+  bits (mkBij Z Audit.s_a Audit.s_b [((1, 2), [1; 0]); ((1, 2), [0])] [])
+  = [true; true; true; true; true; true; true; true; false; true; true] /\
+  bits (mkBij Z (mkSpec Z 1 [(1, RRule Z (mkStrat Example.M Example.U None [] []) 1 [0; -1])]) Audit.s_b [] [])
+  = [true; false; true; false; true; true; true; true; true; true; true].
+Proof. vm_compute. repeat split. Qed.
+
+Print Assumptions C18_strat_ok_decided.
+Print Assumptions C18_rule_strats_ok_decided.
+Print Assumptions C18_spec_wf_decided.
+Print Assumptions C18_bij_wf_decided.
+Print Assumptions C18_spec_roundtrip_decided.
+Print Assumptions C18_bijection_roundtrip_decided.
+Print Assumptions C18_run_bij_verdict_sound.
+Print Assumptions C18_run_spec_verdict_sound.
+Print Assumptions C18_run_small_verdicts_sound.
+Print Assumptions C18_pack_ok_decided.
